@@ -381,6 +381,20 @@ func (c *ctx) precedenceProbes(dialect string, bnd []uint32) {
 // constant at write time): the value must be the wrapped WGSL run-time value, with truncating integer division at every
 // step.  Operands sit at the 32-bit boundaries.
 func (c *ctx) constFoldProbes(dialect string) {
+	for _, p := range constFoldModules() {
+		c.probeCasesN(dialect, p.m, fmt.Sprintf("constfold %s x=%d K=%d", p.t.k, p.x, p.k), []uint32{0}, "constfold", 1)
+	}
+}
+
+type constFoldProbe struct {
+	m     *wmodule
+	t     *wty
+	x, k  uint32
+	forms []*wexpr
+}
+
+func constFoldModules() []constFoldProbe {
+	var out []constFoldProbe
 	lit := func(t *wty, v uint32) *wexpr { return &wexpr{k: "lit", ty: t, bits: v, konst: true} }
 	vr := func(t *wty, n string) *wexpr { return &wexpr{k: "var", ty: t, name: n} }
 	bin := func(t *wty, op string, a, b *wexpr) *wexpr { return &wexpr{k: "bin", ty: t, op: op, args: []*wexpr{a, b}} }
@@ -395,11 +409,11 @@ func (c *ctx) constFoldProbes(dialect string) {
 				}
 				x, k := vr(t, "x"), &wexpr{k: "var", ty: t, name: "KF", konst: true}
 				forms := []*wexpr{
-					bin(t, "-", bin(t, "-", un(t, "~", x), x), k),          // (~x - x) - K
+					bin(t, "-", bin(t, "-", un(t, "~", x), x), k),                     // (~x - x) - K
 					bin(t, "*", bin(t, "/", bin(t, "+", x, k), lit(t, 2)), lit(t, 2)), // ((x + K) / 2) * 2
-					bin(t, "*", bin(t, "*", x, k), k),                        // (x * K) * K
-					bin(t, "+", bin(t, "+", x, k), x),                        // (x + K) + x
-					bin(t, "/", bin(t, "-", k, x), lit(t, 3)),                // (K - x) / 3
+					bin(t, "*", bin(t, "*", x, k), k),                                 // (x * K) * K
+					bin(t, "+", bin(t, "+", x, k), x),                                 // (x + K) + x
+					bin(t, "/", bin(t, "-", k, x), lit(t, 3)),                         // (K - x) / 3
 				}
 				if t.k == "i32" {
 					forms = append(forms, bin(t, "-", un(t, "-", x), k)) // (-x) - K
@@ -414,10 +428,11 @@ func (c *ctx) constFoldProbes(dialect string) {
 					body = append(body, st...)
 				}
 				m.entry = &wfunc{name: "main", body: body}
-				c.probeCasesN(dialect, m, fmt.Sprintf("constfold %s x=%d K=%d", t.k, v, kv), []uint32{0}, "constfold", 1)
+				out = append(out, constFoldProbe{m: m, t: t, x: v, k: kv, forms: forms})
 			}
 		}
 	}
+	return out
 }
 
 func init() { commands["cprobesem"] = cmdCProbeSem }
